@@ -30,7 +30,7 @@ def transform(r):
 
 
 def run(ctx):
-    fams = [f for f in ofcorpus.FAMILIES if f not in ("B", "T")]
+    fams = [f for f in ofcorpus.FAMILIES if f not in ("B", "T")]     # includes EB
     recs = ofcorpus.run_families(ctx, "C05", fams, sub=SUB, judge=JUDGE, transform=transform, constants="")
     fam1 = dict(ctx.extra.get("families", {}))
     # switch-originated kinds: decode the specification's frame through Parse, re-encode (OFParseTrace, predicate group C05)
